@@ -56,7 +56,10 @@ BENIGN_THEMES_BY_PREFIX = {
 
 BENIGN_THEMES_BY_PREFIX["W9"] = BENIGN_THEMES_BY_PREFIX["W7"] + BENIGN_THEMES_BY_PREFIX["W8"][8:]
 BENIGN_THEMES_BY_PREFIX["W10"] = [BENIGN_THEMES_BY_PREFIX["W7"][5], BENIGN_THEMES_BY_PREFIX["W7"][6], BENIGN_THEMES_BY_PREFIX["W8"][8], BENIGN_THEMES_BY_PREFIX["W8"][11]]
+BUG_FOCUS["W11"] = BUG_FOCUS_W10 = None
 BUG_FOCUS["W10"] = "Additional guidance for this round: work in the less travelled code - src/puresnmp/api/pythonic.py, src/puresnmp/varbind.py, src/puresnmp/transport.py (also `listen`), src/puresnmp/credentials.py, src/puresnmp/adt.py, src/puresnmp/plugins/*.py, src/puresnmp_plugins/**, src/puresnmp/util.py helpers other than the obvious one - and prefer a change whose effect travels: a value computed in one module and consumed in another, a default that meets a caller elsewhere, an object shared where a copy was expected, a check that moved before / after the thing it protects. Keep each change small (2-12 changed lines) and plausible as a clean-up, optimisation or robustness fix. The two changes must be in different files and of different kinds."
+
+BUG_FOCUS["W11"] = BUG_FOCUS["W10"]
 
 
 def props():
